@@ -205,6 +205,24 @@ def run_scenario(job):
                     continue
                 obs, views = examine(path, contents, key_of)
                 lines.append({'point': index, 'kind': kind, 'ev': ev, 'obs': obs, 'views': views})
+                # life goes on after the crash: a new handle runs the operation again on the image (for repack on every
+                # image, otherwise on every third one); whatever it does - succeed or refuse - the store must stay intact
+                if kind != 'power' and (scenario.repack or index % 3 == 0):
+                    rerun_error = ''
+                    packdir = os.path.join(path, 'packs')
+                    for name in os.listdir(packdir):
+                        if name.endswith('.lock'):
+                            os.remove(os.path.join(packdir, name))
+                    again = Container(path)
+                    try:
+                        scenario.op(again, contents)
+                    except Exception as exc:  # noqa pylint: disable=broad-except
+                        rerun_error = type(exc).__name__
+                    finally:
+                        again.close()
+                    obs2, views2 = examine(path, contents, key_of)
+                    lines.append({'point': index, 'kind': kind, 'ev': {**ev, 'then': 'rerun', 'rerun_raised': rerun_error},
+                                  'obs': obs2, 'views': views2})
     return {'scenario': scenario.name, 'index': scenario_index, 'acked': scenario.acked(), 'adds': scenario.adds,
             'deletes': scenario.deletes, 'repack': scenario.repack, 'damaged': scenario.damaged, 'lines': lines,
             'error': error, 'n_events': len(handler.images)}
